@@ -164,8 +164,13 @@ def gen_plan(seed, tier="quick", variant=None):
         nf = rng.choice([0, 1, 2, 3, 5])
         for _ in range(nf):
             kind = rng.choice(["error", "error", "error_persist", "error_after_apply", "silent", "cut_before", "cut_mid",
-                               "cut_after", "delay", "move_leader", "meta_error", "refuse", "broker_bounce", "stale", "add_partitions", "add_partitions"])
+                               "cut_after", "delay", "move_leader", "meta_error", "refuse", "broker_bounce", "stale", "add_partitions", "add_partitions",
+                               "versions_error"])
             node = rng.choice([None] + list(range(1, nb + 1)))
+            if kind == "versions_error":
+                # discovery answered with an error code (UNSUPPORTED_VERSION, or anything): with or without entries listed
+                faults.append({"api": 18, "node": None, "nth": 0, "act": "error", "code": rng.choice([35, 35, 35, 2, 42, 999]), "count": rng.choice([1, 1, 3])})
+                continue
             if kind in ("error", "error_persist", "error_after_apply"):
                 f = {"api": 0, "node": node, "nth": rng.randint(0, 5), "act": "error" if kind != "error_after_apply" else "error_after_apply",
                      "code": rng.choice(PASS_THROUGH_CODES + RETRY_CODES)}
@@ -1370,6 +1375,11 @@ def _check_versions(w, plan, res, client):
         if e["key"] not in (0, 1) or e.get("body") is None:
             continue
         res.oblige("C04")
+        if e["version"] != 0 and (adv is None or e["logseq"] < adv_seq):
+            # no error-free version table had reached the client when this request was written (discovery unanswered,
+            # answered with an error code - with or without entries - or still in progress): version 0 is the fallback
+            res.violate("C04", "C04:version-nonzero-without-a-successful-discovery", "api %d v%d written before any error-free ApiVersions answer had arrived" % (
+                e["key"], e["version"]))
         if adv is not None and e["logseq"] > adv_seq:
             lo, hi = adv.get(e["key"], (0, 0))
             if not (lo <= e["version"] <= hi) or e["version"] > 2:
